@@ -10,10 +10,12 @@ import (
 	"encoding/json"
 	"fmt"
 	"hash/fnv"
+	"os"
 	"reflect"
 	"runtime"
 	"sort"
 	"strings"
+	"time"
 
 	"github.com/golang/protobuf/proto"
 	"github.com/openacid/slim/encode"
@@ -513,6 +515,34 @@ func guard(what string, f func() error) (err error) {
 		}
 	}()
 	return f()
+}
+
+// hangLimit is the watchdog bound for calls that normally take milliseconds.
+// It exists only to turn non-termination into a reported violation instead of
+// an inconclusive test timeout; it is about 10^3..10^5 times the normal run time.
+func hangLimit() time.Duration {
+	return time.Duration(envInt("VERIF_HANG_S", 150)) * time.Second
+}
+
+// guardHang is guard plus a watchdog. f runs in its own goroutine; if it does
+// not return within hangLimit the case is saved, a VIOLATION line is printed
+// and the process exits (a spinning goroutine cannot be stopped).
+func guardHang(prop string, c *Case, s *Stats, what string, f func() error) error {
+	done := make(chan error, 1)
+	go func() { done <- guard(what, f) }()
+	select {
+	case err := <-done:
+		return err
+	case <-time.After(hangLimit()):
+		path := writeReplay(prop, c)
+		fmt.Printf("VIOLATION property=%s replay=%s\n", prop, path)
+		fmt.Printf("DETAIL property=%s non-termination: %s did not return within %v (%d keys)\n", prop, what, hangLimit(), len(c.Keys))
+		if s != nil {
+			s.write()
+		}
+		os.Exit(1)
+	}
+	return nil
 }
 
 func (c *Case) build() (*trie.SlimTrie, error) {
